@@ -394,6 +394,9 @@ func c05Run(c *Ctx) {
 		for _, src := range []string{
 			pre + Lines(Var("n", "9075"), Var("digits", "0"), Var("sum", "0"), While("n > 0", "{ sum = sum + n % 10; n = (n - n % 10) / 10; digits = digits + 1; }"), Print(`digits + " " + sum`)),
 			pre + Lines(Var("m", "7"), Var("pairs", "0"), For(Var("i", "0"), "i < m - m % 2", "i = i + 2", "{ "+If("i % 4 == 2", Continue())+" pairs = pairs + 1; }"), Print("pairs"), For(Var("h", "22"), "h != 2", "h = h + 5 % 24", "{ "+Print("h")+" "+If("h > 60", Break())+" }")),
+			// conditions that are calls ending in a value-less return ("no more rounds", "nothing found") after calls that returned values
+			pre + Lines(Var("xs", "[4, 7, 9]"), Fun("more", "i", " "+If("i < "+BI("len", "xs"), "{ "+Ret("xs[i]")+" }")+" "+Ret("")+" "), Var("i", "0"), While("more(i)", "{ "+Print("more(i)")+" i = i + 1; "+If("i > 6", Break())+" }"), Print(`"rounds " + i`),
+				Fun("find", "w", " "+For(Var("j", "0"), "j < 3", "j = j + 1", "{ "+If("xs[j] == w", "{ "+Ret("j + 1")+" }")+" }")+" "+Ret("")+" "), For(Var("w", "6"), "w < 10", "w = w + 1", "{ "+If("find(w) == nil", "{ "+Continue()+" }")+" "+Print(`"found " + w`)+" }"), IfElse("find(5)", Print(`"then"`), Print(`"else"`))),
 			pre + Lines(Var("k", "0"), While("k < 6", "{ k = k + 1; "+IfElse("k * 2 % 3 == 0", "{ "+Continue()+" }", IfElse("k - 1 % 2 == k - 1", Print(`"odd-form " + k`), Print(`"other " + k`)))+" }")),
 		} {
 			if c.Mine() {
@@ -410,6 +413,15 @@ func c05Run(c *Ctx) {
 		lines := []string{bad, For(Var("i", "0"), "i < 2", "i = i + 1", "{ "+Print("i")+" }"), Var("n", "0") + " " + While("n < 2", "{ n = n + 1; "+Print("n")+" }"), IfElse("1 < 2", Print(`"then"`), Print(`"else"`)), bad, IfElse("2 < 1", Print(`"then"`), "{ "+Print(`"else"`)+" }"), Print("3")}
 		if c.Mine() {
 			c05Judge(c, &Case{Gen: "repl-after-stray", Src: strings.Join(lines, "\n"), X: map[string]string{"final_newline": "1", "all_self": "1"}})
+		}
+		// the last line of a piped session without a line terminator runs like any other (loops, arms, stray signals)
+		for _, last := range []string{For(Var("i", "0"), "i < 2", "i = i + 1", "{ "+Print("i")+" }"), IfElse("1 < 2", Print(`"then"`), Print(`"else"`)), bad, Var("n", "0") + " " + While("n < 2", "{ n = n + 1; "+Print("n")+" }")} {
+			if c.Mine() {
+				c05Judge(c, &Case{Gen: "repl-after-stray", Src: strings.Join([]string{bad, last}, "\n"), X: map[string]string{"final_newline": "0", "all_self": "1"}})
+			}
+			if c.Mine() {
+				c05Judge(c, &Case{Gen: "repl-after-stray", Src: last, X: map[string]string{"final_newline": "0", "all_self": "1"}})
+			}
 		}
 	}
 	// 4c. long-running loops: more than a million rounds in one run, in one loop, in consecutive loops, nested
